@@ -6,6 +6,7 @@ import (
 	"fmt"
 	"math"
 	"math/rand/v2"
+	"runtime"
 	"sort"
 	"strings"
 	"sync/atomic"
@@ -488,7 +489,17 @@ func (s *c18srv) send(t c18tmpl, desc string, raw []byte, ct string, headers map
 		// the server must keep answering
 		ping := s.cl.Do("GET", "/v2/ping", nil)
 		if ping.Err != nil {
-			s.res.Violate("unresponsive", "C18:unresponsive:"+t.name, fmt.Sprintf("%s %s: transport error %v and the server no longer answers ping (%v)", t.name, desc, resp.Err, ping.Err), witness)
+			// A missed deadline alone is no verdict (the machine may be overloaded): the server lives
+			// in this process, so look at what its handler goroutines are doing. It is a hang only if
+			// the same handler goroutine sits in semadb code in two samples taken seconds apart AND
+			// a further ping still goes unanswered; otherwise the request is counted as inconclusive.
+			stuck, dump := c18StuckHandlers()
+			if again := s.cl.Do("GET", "/v2/ping", nil); again.Err != nil && stuck != "" {
+				s.res.Violate("unresponsive", "C18:unresponsive:"+t.name, fmt.Sprintf("%s %s: transport error %v, the server no longer answers ping (%v, %v) and a request handler stays inside %s\n%s", t.name, desc, resp.Err, ping.Err, again.Err, stuck, trimStacks(dump)), witness)
+			} else {
+				s.res.Inconclusive++
+				s.res.Note("%s %s: request and ping timed out (%v) without a stuck handler goroutine (machine overloaded?)", t.name, desc, resp.Err)
+			}
 		} else {
 			s.res.Stat("transport_errors_with_live_server", 1)
 		}
@@ -901,4 +912,42 @@ func (c18) RunCase(c fw.Case, env *fw.Env) *fw.CaseResult {
 	var nilHook *func(string, int, int)
 	distance.VerifLenMismatch.Store(nilHook)
 	return res
+}
+
+// c18StuckHandlers samples all goroutines twice, three seconds apart, and names the innermost semadb
+// frame of a goroutine that serves an HTTP request (net/http.(*conn).serve below it) and shows the
+// same semadb frames in both samples.
+func c18StuckHandlers() (string, string) {
+	sample := func() (map[string]string, string) {
+		buf := make([]byte, 4<<20)
+		n := runtime.Stack(buf, true)
+		out := map[string]string{}
+		for _, b := range strings.Split(string(buf[:n]), "\n\n") {
+			if !strings.Contains(b, "net/http.(*conn).serve") || !strings.Contains(b, "github.com/semafind/semadb/") {
+				continue
+			}
+			hdr := strings.SplitN(b, "\n", 2)[0]
+			id := strings.Fields(hdr)
+			if len(id) < 2 {
+				continue
+			}
+			var frames []string
+			for _, l := range strings.Split(b, "\n") {
+				if strings.HasPrefix(l, "github.com/semafind/semadb/") {
+					frames = append(frames, strings.SplitN(l, "(", 2)[0])
+				}
+			}
+			out[id[1]] = strings.Join(frames, "<")
+		}
+		return out, string(buf[:n])
+	}
+	a, _ := sample()
+	time.Sleep(3 * time.Second)
+	b, dump := sample()
+	for id, fr := range a {
+		if b[id] == fr && fr != "" {
+			return strings.SplitN(fr, "<", 2)[0], dump
+		}
+	}
+	return "", dump
 }
